@@ -22,7 +22,7 @@ type c01level struct {
 	group  bool // group_by_header x-grp
 	parent int  // index, -1 for the root
 	url    string
-	pct    int // > 0: declared as allocation_percentage of its parent (max and window derive from it)
+	pct    int  // > 0: declared as allocation_percentage of its parent (max and window derive from it)
 	cost   bool // fixed_window_custom_counter: every request carries its own cost (header x-cost)
 }
 
